@@ -81,6 +81,7 @@ def lemma_merge_extents(ctx):
             (ctx.passed if (len(out) == 0) == (n == 0) else ctx.fail)("C19: the merged list is empty only for an empty input", "n=%d out=%d" % (n, len(out)))
     ctx.paths += total_paths
     (ctx.passed if merged_seen else ctx.fail)("witness: some path merges two extents", "")
+    validate_merge_vectors(ctx)
     ctx.bounds = "all sorted, non-overlapping extent lists of 0..%d extents, offsets 0..2^63-1 (symbolic); %d paths" % (nmax, total_paths)
 
 
@@ -792,3 +793,38 @@ def lemma_metadata_helpers(ctx):
         else:
             ctx.passed("C18: sync issues fsync on the given descriptor")
     ctx.bounds = "loop-free; every call may fail"
+
+
+def validate_merge_vectors(ctx):
+    """translator validation: the repository's own unit-test vectors for merge_extents are pushed through the
+    MIR interpreter concretely and compared with the outputs the test asserts for the real function"""
+    import os
+    src = open(os.path.join(ctx.scr.root, "mirsrc", "libfs/src/common.rs")).read()
+    m = re.search(r"fn test_extent_merge\(\).*?\n    \}\n", src, re.S)
+    if not m:
+        return 0
+    body = m.group(0)
+    cases = []
+    for am in re.finditer(r"assert_eq!\(\s*merge_extents\(\s*vec!\((.*?)\)\)\?,\s*vec!\((.*?)\)\s*\);", body, re.S):
+        rng = lambda t: [(int(a), int(b)) for a, b in re.findall(r"\((\d+)\.\.(\d+)\)\.into\(\)", t)]
+        cases.append((rng(am.group(1)), rng(am.group(2))))
+    n = 0
+    for inp, exp in cases:
+        eng = ctx.engine("libfs", loop_bound=len(inp) + 2)
+        install_log_off(eng)
+        _vec(eng)
+        fn = fn_named(eng.funcs, "merge_extents")
+        items = [AggV("Extent", None, [IntV(a, "u64"), IntV(b, "u64"), BoolV(False)]) for a, b in inp]
+        paths = eng.run(fn.name, [OpaqueV("Vec<Extent>", None, {"items": items})], State())
+        if len(paths) != 1 or paths[0].status != "return" or not is_ok(paths[0].ret):
+            ctx.fail("translator validation: merge_extents test vector runs to a single Ok result", "%r -> %d paths" % (inp, len(paths)))
+            continue
+        out = [(z3.simplify(o.fields[0].t).as_long(), z3.simplify(o.fields[1].t).as_long()) for o in paths[0].ret.fields[0].attrs["items"]]
+        if out != exp:
+            ctx.fail("translator validation: the MIR interpreter reproduces the repository's merge_extents test vectors", "%r: got %r, test expects %r" % (inp, out, exp))
+        else:
+            n += 1
+    if cases:
+        (ctx.passed if n == len(cases) else ctx.fail)("translator validation: the MIR interpreter reproduces the repository's merge_extents test vectors", "%d/%d" % (n, len(cases)))
+    ctx.validated = getattr(ctx, "validated", 0) + n
+    return n
